@@ -28,7 +28,9 @@ WITNESS_EXPRS = {
                   "MatchAtLineEnd('ab')", "NotFollowedBy('ab', 'c')"],
     "Class": ["AnyLetter()", "AnyFrom('x', '-')", "Any()", "AnyButDigit()"],
     "Empty": ["Pregex()"],
-    "Group": ["Group('ab')", "Capture('ab')", "Capture('a', 'nm')", "Group('ab', is_case_insensitive=True)"],
+    "Group": ["Group('ab')", "Capture('ab')", "Capture('a', 'nm')", "Group('ab', is_case_insensitive=True)",
+              "Capture('ab', 'größe')", "Capture(Capture('a', 'x') + 'b', 'naïve')", "Capture(Capture('a', 'x') + 'b', 'y')",
+              "NotFollowedBy(Pregex(), 'b')", "Conditional('x', 'a', 'b')", "Backreference('x')", "Group(Capture('a', 'in') + 'b')"],
     "Other": ["Pregex('ab')", "Pregex('a') + AnyDigit()", "Optional('a') + 'b'"],
     "Quantifier": ["Optional('a')", "AtLeastAtMost('ab', 2, 3)", "Indefinite(AnyDigit(), is_greedy=False)"],
     "Token": ["Pregex('a')", "Pregex('.')", "Backslash()", "Newline()"],
@@ -232,10 +234,17 @@ def pool_for(kind):
         return [("None", None), ("'nm'", "nm"), ("'_x1'", "_x1"), ("'1a'", "1a"), ("'a-b'", "a-b"), ("''", ""), ("'a\\n'", "a\n"),
                 ("'größe'", "größe"), ("5", 5), ("object()", specrt.Witness())]
     if isinstance(kind, list):
-        out = []
+        out, seen = [], set()
         for t in kind:
-            if t in WITNESS_EXPRS:
-                out.extend(witnesses(t))
+            base = t.split(":")[0]
+            if base in WITNESS_EXPRS and base not in seen:
+                seen.add(base)
+                out.extend(witnesses(base))
+            elif t in ("str0", "str1", "str2", "other", "none", "int", "str"):
+                for lv in {"str0": [("''", "")], "str1": [("'a'", "a"), ("'.'", ".")], "str2": [("'a.c'", "a.c"), ("'x|y'", "x|y")],
+                           "other": [("object()", specrt.Witness())], "none": [("None", None)], "int": [("5", 5)],
+                           "str": [("'nm'", "nm"), ("'a-b'", "a-b")]}[t]:
+                    out.append(lv)
         return out
     raise ValueError(kind)
 
